@@ -766,7 +766,18 @@ def rfcZone (s : Str) (p : Parsed) : PRes (Str × Parsed) := do
   let p ← p.setOffset off
   pure (skipComments s.length s, p)
 
-/-- `parse_rfc2822` -/
+/-- `parse_rfc2822`.  Accepted (S = any run of Unicode white space):
+    `*S [ day-name "," ] *S 1*2DIGIT 1*S month-name 1*S 2*DIGIT 1*S 2DIGIT *S ":" *S 2DIGIT [ *S ":" 2DIGIT ] 1*S zone *comment`
+    * day and month names: three ASCII letters in any case; a given day name must be the date's weekday
+      (`Impossible` otherwise), checked in `Parsed.toNaiveDate`;
+    * year: 2 digits ↦ 2000+ (00–49) / 1900+ (50–99); 3 digits ↦ 1900+; 4 or more digits literally (up to chrono's
+      262142; `i32` overflow ↦ `OutOfRange`);
+    * no white space is allowed between the second `:` and the seconds; seconds may be `60` (leap second);
+    * zone: `±hhmm` (hh 00–99, mm 00–59; |offset| ≥ 24 h ↦ `OutOfRange`), or a name in any case: `UT GMT Z` = +0000,
+      `EDT` −4, `EST CDT` −5, `CST MDT` −6, `MST PDT` −7, `PST` −8, any single letter except `J` = +0000, any other
+      alphabetic word ↦ `Invalid`;
+    * comments `( … )` with nesting and `\`-escapes may follow, each preceded by optional white space; trailing
+      white space after the zone or after the last comment is `TooLong`. -/
 def parseRfc2822 (s : Str) (p : Parsed) : PRes (Str × Parsed) := do
   let (s, p) ← rfcDow (trimStart s) p
   let (s, p) ← rfcDate (trimStart s) p
@@ -791,12 +802,16 @@ def digitAt (s : Str) (i : Nat) : PRes Nat :=
 def expectAt (s : Str) (i : Nat) (ok : Char → Bool) : PRes Unit :=
   if ok (charAt s i) then .ok () else .error .invalid
 
+/-- `if bytes.get(19) == Some(&b'.') { scan::nanosecond(&s[20..]) } else { 0 }` -/
+def fracPart (tail : Str) : PRes (Str × Nat) :=
+  match tail with
+  | '.' :: r => nanosecond r
+  | r => .ok (r, 0)
+
 /-- the part of `parse_rfc3339` after the 19 fixed positions: fraction, range of the time, offset, end of input,
     conversion to UTC -/
 def rfc3339Tail (date : Int) (h mi sec : Nat) (tail : Str) : PRes NDT := do
-  let (rest, frac) ← (match tail with
-    | '.' :: r => nanosecond r
-    | r => .ok (r, 0) : PRes (Str × Nat))
+  let (rest, frac) ← fracPart tail
   -- `NaiveTime::from_hms_nano_opt`; a second of 60 is 59 plus 10⁹ ns
   if h ≥ 24 ∨ mi ≥ 60 ∨ sec > 60 then .error .outOfRange else
   let time : NTime := ⟨h * 3600 + mi * 60 + min sec 59, (if sec = 60 then 1000000000 else 0) + frac⟩
@@ -808,6 +823,9 @@ def rfc3339Tail (date : Int) (h mi sec : Nat) (tail : Str) : PRes NDT := do
   | none => .error .impossible     -- unreachable: years 0–9999 are far from the limits (chrono: `unreachable!()`)
 
 /-- `parse_rfc3339` (strict): `YYYY-MM-DD(T|t| )HH:MM:SS[.fraction](Z|z|±HH:MM)`, then the UTC date-time.
+    Exactly 4-2-2 and 2-2-2 digits; the separator is `T`, `t` or one space; the fraction is `.` and one or more
+    digits (digits after the ninth are skipped); seconds may be `60`; the offset sign may be `+`, `-` or U+2212, its
+    colon is mandatory, hh 00–99 and mm 00–59 are scanned but |offset| ≥ 24 h is `OutOfRange`; nothing may follow.
     Positions are character positions: all 19 leading positions are checked to hold ASCII characters in order, so
     byte and character positions coincide up to the first failing check. -/
 def rfc3339Utc (s : Str) : PRes NDT :=
